@@ -127,6 +127,7 @@ class FaultSchedule:
         if not self.active:
             return None
         hit = None
+        stale = None
         for f in self.active:
             if f.api is not None and f.api != api_key:
                 continue
@@ -138,18 +139,24 @@ class FaultSchedule:
                 continue
             idx = f.seen
             f.seen += 1
-            if hit is not None:
-                continue
             start = 0 if f.nth is None else f.nth
-            if idx < start:
-                continue
             if f.count is not None and idx >= start + f.count:
+                # its window has passed (another fault fired on those requests)
+                if stale is None:
+                    stale = []
+                stale.append(f)
+                continue
+            if hit is not None or idx < start:
                 continue
             f.fired += 1
             hit = f
         if hit is not None and hit.exhausted():
             self.active.remove(hit)
             self.done.append(hit)
+        if stale:
+            for f in stale:
+                self.active.remove(f)
+                self.done.append(f)
         return hit
 
 
